@@ -57,3 +57,14 @@ Proof. intros <-. apply firstn_app_exact. Qed.
 
 Lemma skipn_app_len {A} n (a b : list A) : length a = n -> skipn n (a ++ b) = b.
 Proof. intros <-. apply skipn_app_exact. Qed.
+
+Lemma nth_map' {A B} (f : A -> B) l i d d' : i < length l -> nth i (map f l) d = f (nth i l d').
+Proof.
+  intros H. rewrite (nth_indep _ d (f d')) by (rewrite map_length; exact H). apply map_nth.
+Qed.
+
+Lemma nth_map_seq {A} (f : nat -> A) n i d : i < n -> nth i (map f (seq 0 n)) d = f i.
+Proof.
+  intros H. rewrite (nth_map' f (seq 0 n) i d 0) by (rewrite seq_length; exact H).
+  now rewrite seq_nth.
+Qed.
